@@ -81,9 +81,16 @@ fn main() {
                     use std::io::Write;
                     let line = format!(
                         "{current_level} {id} {}\n",
-                        job.1.iter().map(|i| i.to_string()).collect::<Vec<_>>().join(" ")
+                        job.1
+                            .iter()
+                            .map(|i| i.to_string())
+                            .collect::<Vec<_>>()
+                            .join(" ")
                     );
-                    let file = std::fs::OpenOptions::new().create(true).append(true).open(path);
+                    let file = std::fs::OpenOptions::new()
+                        .create(true)
+                        .append(true)
+                        .open(path);
                     let _ = file.and_then(|mut f| f.write_all(line.as_bytes()));
                 }
 
